@@ -371,7 +371,7 @@ constexpr long kBigFrames = 24;
 
 inline long count(Ctx& c)
 {
-    return kKindSweeps + kFieldSweeps + kValiditySweeps + kInnerLengthSweeps + kManyMessages + kBigFrames + (c.thorough() ? 8000000 : 40000);
+    return kKindSweeps + kFieldSweeps + kValiditySweeps + kInnerLengthSweeps + kManyMessages + kBigFrames + (c.thorough() ? 8000000 : 300000);
 }
 
 inline void run(Ctx& c, long idx)
